@@ -676,7 +676,7 @@ func healthStream(cfg *Config) *hx.Stats {
 	// OBSERVATION (not a violation: cyclic storages are not produced by valid histories and are not
 	// one of the four corruption classes): on a reference cycle below a root the real functions do
 	// not return.  Exercised in a child process under a watchdog.
-	for _, call := range []string{"check", "refs"} {
+	for _, call := range []string{"check", "refs", "iter"} {
 		switch cycleProbe(call) {
 		case "hang":
 			st.Hit("observation:cyclic-" + call + "-does-not-return")
@@ -768,6 +768,25 @@ func healthCycleChild(cfg *Config) *hx.Stats {
 	case "refs":
 		refs, broken, err := ps.GetAllChildReferences(root)
 		fmt.Printf("RETURNED refs %d %d err=%v\n", len(refs), len(broken), err)
+	case "iter":
+		// the cycle A <-> B sits in the ledger, only a third array R=[ref A] is loaded
+		ledger := hx.NewLedger()
+		ps := hx.NewStorage(ledger)
+		addr := hx.MkAddr(1)
+		a, err := atree.NewArray(ps, addr, hx.TI(1))
+		must(err)
+		b, err := atree.NewArray(ps, addr, hx.TI(2))
+		must(err)
+		r, err := atree.NewArray(ps, addr, hx.TI(3))
+		must(err)
+		must(a.Append(RefV{b.SlabID()}))
+		must(b.Append(RefV{a.SlabID()}))
+		must(r.Append(RefV{a.SlabID()}))
+		must(ps.FastCommit(1))
+		ps = hx.NewStorage(ledger)
+		must(ps.BatchPreload([]atree.SlabID{r.SlabID()}, 1))
+		_, err = ps.SlabIterator()
+		fmt.Printf("RETURNED iter err=%v\n", err)
 	}
 	return hx.NewStats("healthcycle-child", cfg.Seed)
 }
